@@ -397,6 +397,10 @@ func runPlan(c *pbt.Case, p Plan) {
 	}
 	cl := cluster.New(filepath.Join(base, "nodes"), 50*time.Millisecond)
 	c.Cleanup(cl.Close)
+	var oplog []string
+	if os.Getenv("VERIF_OPLOG") != "" {
+		cl.OpLog = &oplog
+	}
 	cl.DBs[dbName] = &cluster.DBConfig{Name: dbName, PageSize: p.PageSize, JournalMode: p.Mode, Sync: pager.SyncOff, Sector: 512}
 	pr, err := cl.AddNode("p", cluster.NodeOpts{Candidate: true, Compress: p.Compress, Configure: func(s *litefs.Store) {
 		s.BackupDelay = 0 // no background loop: every sync is a step of the plan
@@ -520,7 +524,25 @@ func runPlan(c *pbt.Case, p Plan) {
 			c.Failf("C14/primary-at-unknown-position", "%s: the primary is at %s, which nobody committed", when, res.Pos)
 		}
 		if d := res.Image.Diff(want); d != "" {
-			c.Failf("C14/primary-image-wrong", "%s: the primary at %s differs from the database committed there: %s", when, res.Pos, d)
+			raw := "unreadable"
+			if img, err := ref.LogicalImage(pr.DBDir(dbName)); err == nil && img != nil {
+				raw = "files agree with the reference"
+				if dd := img.Diff(want); dd != "" {
+					raw = "files differ from the reference too: " + dd
+				}
+			}
+			wb, _ := os.ReadFile(filepath.Join(pr.DBDir(dbName), "wal"))
+			sc := ref.WALScan(wb)
+			var fr []string
+			for _, f := range sc.Valid {
+				fr = append(fr, fmt.Sprintf("%d:%d", f.Pgno, f.Commit))
+			}
+			dbst, _ := os.Stat(filepath.Join(pr.DBDir(dbName), "database"))
+			var dbsz int64
+			if dbst != nil {
+				dbsz = dbst.Size()
+			}
+			c.Failf("C14/primary-image-wrong", "%s: the primary at %s differs from the database committed there: %s [read through the mount; the raw files: %s; position now %s; wal %d bytes headerOK=%v reason=%q lastCommit=%d frames(pgno:commit)=%v; database file %d bytes]\n"+strings.Join(tailS(oplog, 60), "\n"), when, res.Pos, d, raw, pr.Pos(dbName), len(wb), sc.HeaderOK, sc.Reason, sc.LastCommit, fr, dbsz)
 		}
 		if sig, msg := pr.Monitors(dbName); sig != "" {
 			c.Failf(sig, "%s: primary: %s", when, msg)
@@ -855,3 +877,10 @@ func TestProp_backup_sync(t *testing.T) { syncProp.Check(t) }
 func TestReplay(t *testing.T) { pbt.Replay(t, syncProp, streamProp) }
 
 func bytesReader(b []byte) *bytes.Reader { return bytes.NewReader(b) }
+
+func tailS(a []string, n int) []string {
+	if len(a) > n {
+		return a[len(a)-n:]
+	}
+	return a
+}
